@@ -554,8 +554,14 @@ Definition transpose (axes : option (list Z)) (constructs inplace : bool) (s : c
           | Some sh' =>
               match faxes s with
               | None =>
-                  if constructs
-                  then ((if inplace then with_field s (Some sh') None else s), Rejected OtherErr)
+                  (* constructs=True without field data axes: NameError (or an
+                     earlier ValueError) at the first construct with 2-d data,
+                     otherwise nothing more happens *)
+                  if constructs && existsb (fun e => match e with
+                                                     | (t, _, PArr (Some shc) true _) =>
+                                                         is_array t && (2 <=? length shc)%nat
+                                                     | _ => false end) (cons s)
+                  then (s, OutOfModel)
                   else (with_field s (Some sh') None, Done)
               | Some ax =>
                   match permute ax ia with
@@ -595,6 +601,9 @@ Definition insert_entry (axis : key) (position : Z) (data_axes0 : list key)
             else
               let cpos := fold_left (fun c a => if memb a ca then c else c - 1) data_axes0 position in
               let cpos := if cpos <? 0 then 0 else cpos in
+              (* construct.insert_dimension(c_position) raises mid-loop when the
+                 position exceeds the construct's rank (possible without field data) *)
+              if Z.of_nat (length sh) <? cpos then None else
               Some ((t, k, PArr (Some (insert_at cpos 1 sh)) true bnd), Some (k, insert_at cpos axis ca))
         end
       else Some (e, None)
@@ -787,13 +796,20 @@ Definition convert (k : key) (full : bool) (s : cstate) : cstate * outcome :=
                                     match newc with
                                     | [] => Some (refs, das)
                                     | _ =>
-                                        match mapM (fun ta => match snd ta with
-                                                              | Some a => assoc a (caxes s)
-                                                              | None => None end) ancs with
+                                        (* "for ccid in ...values(): axes = constructs_data_axes[ccid];
+                                            if not subset: ok = False; break" - scanned in order *)
+                                        match fold_left (fun (st : option bool) ta =>
+                                                 match st with
+                                                 | Some true =>
+                                                     match snd ta with
+                                                     | Some a => match assoc a (caxes s) with
+                                                                 | Some aax => Some (subset aax dax)
+                                                                 | None => None end
+                                                     | None => None end
+                                                 | other => other end) ancs (Some true) with
                                         | None => None              (* KeyError on a missing / None term *)
-                                        | Some aaxs =>
-                                            (* "for ... if not subset: ok = False; break" *)
-                                            if forallb (fun a => subset a dax) aaxs then
+                                        | Some okb =>
+                                            if okb then
                                               Some ((refs ++ [(CoordRef, rk, PRef newc ancs)])%list,
                                                     (das ++ flat_map (fun ta => match snd ta with
                                                                  | Some a => match cget DomainAnc a (cons s) with
